@@ -181,6 +181,22 @@ theorem untouched_preserved_extend_args_partial (k : Bool) (N : List (String × 
       (extendArgs k N h as).1.readArg c = some g' ∧ ArgKept k N g g' :=
   extendArgs_kept k N as h h (FrameX.refl _ h) hlt
 
+/-- FRAME PART at member level (full, for all heaps / schemas / extension documents): whatever `extend_schema` still does after
+    some point (`extendRest`: the remaining registered types `l`, the new types, all directives) writes placeholder addresses
+    only — every object allocated after the placeholders, i.e. every rebuilt field, argument and input field, reads the same
+    at the end of `extend_schema` (`extend_heap_eq`: `extend` = placeholders + `extendRest` over all registered types).
+    Together with `untouched_preserved_extend_members_partial` (attributes at the rebuild) this is the member level of
+    `untouched_preserved` for extension; the two halves are not yet composed into one statement about `extend`. -/
+theorem untouched_preserved_extend_members_frame (cfg : Cfg) (ext : Ext) (s : Schema) (h : Heap) (N Nin : List (String × Addr))
+    (l : List (String × Addr)) (hl : (l.map (·.1)).Nodup) (hmid : Heap)
+    (hsz : (allocPlaceholders h ((s.types.filter fun e => !isProtected e.1).map (·.1) ++ ext.newTypes.map (·.1))).1.size ≤ hmid.size)
+    (c : Addr) (hc1 : (allocPlaceholders h ((s.types.filter fun e => !isProtected e.1).map (·.1) ++ ext.newTypes.map (·.1))).1.size ≤ c)
+    (hc2 : c < hmid.size) :
+    (extendRest cfg ext N Nin (allocPlaceholders h ((s.types.filter fun e => !isProtected e.1).map (·.1) ++ ext.newTypes.map (·.1))).2
+      h s l hmid).read c = hmid.read c :=
+  extendRest_read cfg ext N Nin _ h s _
+    (fun n x hx => (allocPlaceholders_lookup _ h n x hx).2) (allocPlaceholders_inj _ h) l hl hmid hsz c hc1 hc2
+
 /-- with the fixes (`Cfg.fixed`) the kept attributes are plain equalities -/
 theorem fieldKept_fixed (N : List (String × Addr)) (f f' : FieldO) (k : FieldKept Cfg.fixed N f f') :
     f'.name = f.name ∧ f'.desc = f.desc ∧ f'.depr = f.depr ∧ f'.res = f.res ∧ f'.sub = f.sub ∧ f'.py = f.py := by
